@@ -341,5 +341,24 @@ func VerifH06() {
 	finalKeys := &lop{kind: 3}
 	run(finalKeys)
 	nd.Assert(linearizable(m, append(append([]*lop{}, ops...), final, finalKeys)), "H06.final-state-is-linearizable")
+	// the order in which concurrent writes took effect is also the order that survives a reopen:
+	// after Close and Open every key reads as it did before
+	finalB := &lop{kind: 2, key: "b"}
+	run(finalB)
+	if haveTx && !committed {
+		_ = tx.Rollback(ctx)
+	}
+	w.reopen("H06")
+	for _, pre := range []*lop{final, finalB} {
+		b, err := w.d.Get(ctx, pre.key)
+		if pre.found {
+			nd.Assert(err == nil, "H06.value-lost-by-reopen-after-concurrent-writes")
+			if err == nil {
+				nd.Assert(nd.EqBytes(b, pre.got), "H06.reopen-changes-the-winner-of-concurrent-writes")
+			}
+		} else {
+			nd.Assert(isNotFound(err), "H06.value-resurrected-by-reopen-after-concurrent-writes")
+		}
+	}
 	nd.Reach("H06.end")
 }
